@@ -55,7 +55,7 @@ def reset(remove_files=True):
         if nm.startswith("pyrates_run") or nm.startswith("pyrates_func") or nm.startswith("pv_gen_"):
             sys.modules.pop(nm, None)
     if remove_files:
-        for pat in ("pyrates_run*", "pyrates_func*", "pv_gen_*", "*.f90", "*.mod", "c.*", "*.so"):
+        for pat in ("pyrates_run*", "pyrates_func*", "pv_gen_*", "pvauto_*", "*.f90", "*.mod", "c.*", "*.so"):
             for f in glob.glob(pat):
                 try:
                     if os.path.isdir(f):
